@@ -318,7 +318,8 @@ class ElementList(MutableSequence):
         elif isinstance(value, Element):  # it is already an instance of Element
             child = value
         elif isinstance(value, BaseDataType):
-            child = self.create_element(name, False, reference)
+            # built detached: it is attached below, in place of (or after) the existing repetitions
+            child = self.create_element(name, False, reference, attach=False)
             child.value = value
         else:
             raise ChildNotValid(value, child_name)
@@ -408,7 +409,7 @@ class ElementList(MutableSequence):
             self.remove(old_child)
             self.insert(list_index, new_child, by_name_index)
 
-    def create_element(self, name, traversal_parent=False, reference=None):
+    def create_element(self, name, traversal_parent=False, reference=None, attach=True):
         """
         Create an element having the given name
 
@@ -432,7 +433,9 @@ class ElementList(MutableSequence):
             kwargs = {'reference': reference['ref'],
                       'validation_level': self.element.validation_level,
                       'version': self.element.version}
-            if not traversal_parent:
+            if not attach:
+                pass
+            elif not traversal_parent:
                 kwargs['parent'] = self.element
             else:
                 kwargs['traversal_parent'] = self.element
